@@ -573,6 +573,56 @@ fn prefilter(args: &[String]) {
                 }
             }
         }
+        // One lookup referenced from two STAGES of the plan (rvrn + liga in the default shaper; ccmp + calt around the
+        // positional stages of the Arabic shaper) whose target glyph only appears after the first stage: the decision
+        // "this lookup cannot apply" is valid for the glyph set of its own stage only.
+        {
+            for (early, late, producer_tag, script, cp) in [(*b"rvrn", *b"liga", *b"liga", None, pua(0)), (*b"ccmp", *b"calt", *b"isol", Some("Arab"), 0x0628u32), (*b"rvrn", *b"calt", *b"ccmp", None, pua(0)), (*b"ccmp", *b"rlig", *b"fina", Some("Arab"), 0x0628)] {
+                for dup in [false, true] {
+                    let mut spec = FontSpec::basic(60);
+                    spec.cmap = vec![(cp, 1)];
+                    // lookup 0: 1 -> 40 (producer); lookup 1: 40 -> 41 (shared between the early and the late feature);
+                    // `dup`: the early feature points at an identical COPY (lookup 2) instead - must give the same result
+                    let l0 = Lookup::one(SubstSubtable::Single2 { coverage: Coverage::Glyphs(vec![1]), substitutes: vec![40] });
+                    let l1 = Lookup::one(SubstSubtable::Single2 { coverage: Coverage::Glyphs(vec![40]), substitutes: vec![41] });
+                    let mut feats: Vec<(Tag, Vec<u16>)> = vec![(early, vec![if dup { 2 } else { 1 }]), (late, vec![1])];
+                    if producer_tag == late { feats[1].1.insert(0, 0); } else { feats.push((producer_tag, vec![0])); }
+                    feats.sort();
+                    let mut layout = Layout::with_features(feats, vec![l0, l1.clone(), l1]);
+                    if script.is_some() {
+                        let all = layout.scripts[0].default_langsys.clone();
+                        layout.scripts = vec![ScriptRecord { tag: *b"DFLT", default_langsys: all.clone(), langsys: vec![] }, ScriptRecord { tag: *b"arab", default_langsys: all, langsys: vec![] }];
+                    }
+                    spec.gsub = Some(layout);
+                    let data = build(&spec);
+                    let req = Req { text: vec![(cp, 0)], script: script.map(|x| x.to_string()), flags: 3, ..Default::default() };
+                    let d1 = data.clone();
+                    let rq = req.clone();
+                    VERIF_PREFILTER_OFF.store(false, Ordering::SeqCst);
+                    let on = catch(move || { let f = rustybuzz::Face::from_slice(&d1, 0).unwrap(); shape_req(&f, &rq) });
+                    let d2 = data.clone();
+                    let rq = req.clone();
+                    VERIF_PREFILTER_OFF.store(true, Ordering::SeqCst);
+                    let off = catch(move || { let f = rustybuzz::Face::from_slice(&d2, 0).unwrap(); shape_req(&f, &rq) });
+                    VERIF_PREFILTER_OFF.store(false, Ordering::SeqCst);
+                    shapes += 1;
+                    gen_shapes += 1;
+                    if let Ok(o) = &off {
+                        if o.iter().any(|g| g.gid == 41) {
+                            nontrivial += 1;
+                        }
+                    }
+                    if on != off {
+                        diffs += 1;
+                        if diffs <= 10 {
+                            println!("diff font=generated:lookup-in-two-stages-{}-{}{} req=[{}] on={} off={}", String::from_utf8_lossy(&early), String::from_utf8_lossy(&late), if dup { "-copy" } else { "" }, fmt_req(&req),
+                                match &on { Ok(g) => fmt_g(g), Err(e) => format!("panic {}", e) },
+                                match &off { Ok(g) => fmt_g(g), Err(e) => format!("panic {}", e) });
+                        }
+                    }
+                }
+            }
+        }
         println!("prefilter-generated shapes={}", gen_shapes);
     }
     println!("prefilter-summary fonts={} shapes={} nontrivial={} diffs={} stale={}", used, shapes, nontrivial, diffs, stale);
